@@ -112,6 +112,36 @@ def gen(cs, rnd, n):
                          {"argv": argv, "stdin": ""}]})
 
 
+def gen_big_rows(cs, rnd, n):
+    """Rows whose printed form is longer than the blocks in which writers that collect their output hand it on (1 KiB, 8 KiB, 64 KiB), between small
+    rows, in every output style: a row is printed where its value stands, however long it is."""
+    for i in range(n):
+        style, js = STYLES[i % len(STYLES)] if i < 2 * len(STYLES) else rnd.choice(STYLES)
+        argv = list(style)
+        if "--output-style=csv" in style or "--headers" in style or rnd.random() < 0.4:
+            argv.append("--select=. =S0")
+            if rnd.random() < 0.5:
+                argv.append("--select=(size .) =S1")
+        size = rnd.choice([1000, 1100, 8100, 8192, 9000, 9000, 16500, 66000])
+        def bigrow():
+            k = rnd.randrange(3)
+            if k == 0:
+                return ("str", [120] * size)
+            if k == 1:
+                return ("arr", [("num", str(100000 + j)) for j in range(size // 8)])
+            return ("obj", [(PL.cps("g"), ("str", [121] * size)), (PL.cps("id"), ("num", "7"))])
+        small = lambda m: [rnd.choice([("str", PL.cps("a%d" % j)), ("num", str(j)), ("obj", [(PL.cps("id"), ("num", str(j)))])]) for j in range(m)]
+        A = small(rnd.choice([1, 2, 5])) + ([bigrow()] if rnd.random() < 0.6 else []) + small(rnd.choice([0, 1, 3]))
+        B = small(rnd.choice([0, 1, 2])) + [bigrow()] + small(rnd.choice([1, 2]))
+        if rnd.random() < 0.3:
+            B = list(reversed(A))            # a permutation
+        da, db = PL.input_bytes(A), PL.input_bytes(B)
+        dl = {"chunks": [8192]}
+        cs.add({"kind": "rel", "rel": "concat", "cfg": PL.mkcfg(), "input": [], "json": js and True,
+                "runs": [dict({"argv": argv, "stdin": hexs(da + db)}, **dl), dict({"argv": argv, "stdin": hexs(da)}, **dl), dict({"argv": argv, "stdin": hexs(db)}, **dl),
+                         {"argv": argv, "stdin": ""}]})
+
+
 def gen_seam(cs, rnd):
     """Records that are equal and not the same at the seam of A and B - members in another order, equal elements under different records - with
     macros (given by --set, written in the expression) whose value shows the difference: nothing computed for a record is kept for the next."""
@@ -145,6 +175,7 @@ def check(tier, seed, replay=None):
         PC.model_check(chk, ["uniq", "split"], 3 if quick else 4, ["Local"], workers=8 if quick else 12)
         gen(cs, rnd, 400 if quick else 10000)
         gen_seam(cs, rnd)
+        gen_big_rows(cs, rnd, 24 if tier == "quick" else 600)
     per, recs = PC.run_and_validate(chk, jvh, cs, "c11", nproc=8 if tier == "quick" else 14)
     PC.summarize(chk, cs, per, lambda rc: len(rc["runs"][0]["argv"]) >= 1 and len(rc["runs"][1]["stdin"]) > 0 and len(rc["runs"][2]["stdin"]) > 0)
     return chk.finish()
